@@ -33,10 +33,13 @@ def strategy(draw):
     if ndt >= 2 and nrec >= 4 and draw(st.booleans()):
         # arrangements whose regrouping permutation is not its own inverse (a,b,b,a / a,b,a,a ...)
         pattern[:4] = draw(st.sampled_from([[0, 1, 1, 0], [0, 1, 0, 0], [1, 0, 0, 1], [0, 1, 1, 1][::-1], [0, 0, 1, 0][::-1]]))
-    exp = draw(st.integers(-6, 6))
+    # amplitudes from 1e-10 (ground velocity in m/s) to 1e6 (counts)
+    exp = draw(st.one_of(st.integers(-10, 6), st.sampled_from([-10, -9])))
+    equal_len = draw(st.booleans())
+    n_common = draw(st.integers(16, 400))
     recs = []
     for i in range(nrec):
-        n = draw(st.integers(16, 400))
+        n = n_common if equal_len else draw(st.integers(16, 400))
         recs.append(draw(gen.recording_recipe(n=n, dt=dts[pattern[i]], scale_exp=(exp, exp), dfn_range=(0, 0),
                                               kinds=("noise", "sines", "chirp", "spikes", "raw"))))
     # choose the code path first (5 paths), then the name, so that every path gets a fair share
